@@ -353,7 +353,13 @@ pub fn request_strategy(pool: usize) -> BoxedStrategy<Value> {
     proptest::option::weighted(0.2, (select(vec!["cat", "tag", "year", "nope"]), proptest::option::of((0usize..4, 0usize..3)))),
     proptest::option::weighted(0.5, vec(aggs, 1..3)),
     proptest::option::weighted(0.25, (select(vec!["body", "title", "tag", "year"]), select(vec!["", "r", "ru", "Ru", "é", "the"]), 0usize..8, proptest::option::weighted(0.4, Just(json!({"max_edits": 2, "prefix_length": 0, "max_expansions": 10, "min_length": 0}))))),
-    proptest::option::weighted(0.25, (qg.tree(1), 0usize..15, select(vec!["total", "multiply", "avg", "max", "min"]), proptest::option::of(select(vec![0.0f64, 0.5, 2.0])), proptest::option::of(select(vec![0.0f64, 1.0, 3.0])))),
+    // the rescore query: a plain tree, or one that rejects window hits (min_score / a script that has no value)
+    proptest::option::weighted(0.3, (prop_oneof![
+      3 => qg.tree(1),
+      2 => (qg.tree(1), select(vec![0.0f64, 0.4, 1.5, 1e30])).prop_map(|(q, m)| json!({"type": "function_score", "query": q, "functions": [{"type": "weight", "weight": 1.0}], "min_score": m})),
+      1 => Just(json!({"type": "function_score", "query": {"type": "match_all"}, "functions": [{"type": "weight", "weight": 1.0}], "min_score": 1e30})),
+      1 => Just(json!({"type": "script_score", "query": {"type": "match_all"}, "script": "1 / (price - price)"})),
+    ], 0usize..15, select(vec!["total", "multiply", "avg", "max", "min"]), proptest::option::of(select(vec![0.0f64, 0.5, 2.0])), proptest::option::of(select(vec![0.0f64, 1.0, 3.0])))),
     (any::<bool>(), any::<bool>(), any::<bool>()),
     proptest::option::weighted(0.15, vec(select(vec!["body", "title", "tag", "nope"]), 0..3)),
   );
